@@ -3,21 +3,31 @@
    Spec : Eql/RuleSpec.v  ([rdr]: ripple-down-rules interpreter on the written program, per element of the domain).
    Model: Eql/RuleBuild.v ([build]/[reify]: the heap surgery of refinement/alternative/next_rule while the with-blocks
           are written) + Eql/RuleEval.v ([run]: ExceptIf/Alternative/Next selection, concluded_before, descriptor).
-   Fragment: [Fb prog] = [Gb prog] (the surgery produced the written tree, every node once -- decidable, computed;
-             since /repo 4511011 it holds for all 1210 skeletons with <= 4 branches, nesting <= 3) and no next_rule.
-             Outside: programs with next_rule are compared with the faithful model (and with the Spec, except the
-             class [later_ref_next] whose reading the property text does not settle).  All former defects (surgery:
-             C08-a/b/c/f, /repo 4511011; next_rule: C08-d/e, 35fa150; C08-g, 6dfdafd) are regression theorems. *)
+   Construction: proved for EVERY program ([C08_build_all]: the heap surgery yields the written tree, every node once).
+   Evaluation: proved for every program without next_rule ([C08_rules]), and for programs whose only next_rule is the
+   last top-level branch, without refinements of its own and with a conclusion of its own ([C08_rules_next], up to
+   permutation).  Other programs with next_rule are compared with the faithful model and the Spec; the class
+   [later_ref_next] (reading not settled by the property text) with the model only.  All former defects (C08-a..h) are
+   regression theorems. *)
 From Coq Require Import List ZArith Bool Arith Permutation.
 From Krrood Require Import Eql.RuleSpec Eql.RuleEval Eql.RuleBuild Eql.RulePure Eql.RuleEvalProofs Eql.RuleSpecProofs Eql.RuleProofs
-  Eql.RuleNextProofs Eql.RuleNextSpecProofs.
+  Eql.RuleNextProofs Eql.RuleNextSpecProofs Eql.RuleBuildProofs Eql.RuleBuildAll.
 Import ListNotations.
 
-(* the central theorem: for every program of the fragment (any conditions, any conclusions) and every domain contents,
-   the run of the built query returns exactly the Spec's instances: one (tag, element) per firing, in element order *)
-Theorem C08_rules : forall prog, Fb prog = true -> forall W,
+(* construction, for EVERY rule program of the grammar (any nesting, any number of siblings, any conditions and
+   conclusions): executing the with-blocks on the node heap (re-parenting statements of refinement / alternative_or_next /
+   `_parent_` setter / Conclusion.__post_init__ / __enter__ with the cached conditions root) yields a heap from which the
+   evaluator reads exactly the written tree, every node once *)
+Theorem C08_build_all : forall prog,
+  exists h t, build prog = Some h /\ reify h = Some t /\ erase t = tree_of prog /\ NoDup (ids t).
+Proof. exact build_written. Qed.
+
+(* the central theorem: for EVERY program without next_rule (no premise about the construction), any conditions, any
+   conclusions, and every domain contents, the run of the built query returns exactly the Spec's instances: one
+   (tag, element) per firing, in element order *)
+Theorem C08_rules : forall prog, has_next prog = false -> forall W,
   exists rows, model prog W = Some rows /\ singles rows = Some (rdr prog W).
-Proof. exact rules_ok. Qed.
+Proof. exact rules_ok_all. Qed.
 
 (* the same for programs WITH a next_rule, in the extended fragment [Fb_next]: the program is built as written, its
    last top-level branch is a next_rule without refinements, there is no other next_rule, and the next_rule's conclusion is
@@ -34,11 +44,6 @@ Theorem C08_ruleeval_root_next : forall W id idr l csr cr,
   run W (Node id SNext l (Leaf idr csr cr)) = flat_map (f1 l csr cr) (enum W) ++ flat_map (f2 l csr cr) (enum W).
 Proof. exact run_root_next. Qed.
 
-(* construction: what Gb means -- the tree the evaluator sees is the written tree *)
-Theorem C08_build_shape : forall prog, Gb prog = true ->
-  exists h t, build prog = Some h /\ reify h = Some t /\ erase t = tree_of prog /\ NoDup (ids t).
-Proof. exact Gb_spec. Qed.
-
 (* evaluation: on EVERY tree without Next whose nodes are pairwise distinct, and every domain, the generator
    semantics with concluded_before / stale flags / dynamic conclusion sets computes the pure per-element reading *)
 Theorem C08_ruleeval_ok : forall W t, nextfree t = true -> NoDup (ids t) ->
@@ -52,11 +57,15 @@ Theorem C08_tree_is_rdr : forall prog e, has_next prog = false ->
   length (rdr1 prog e) <= 1.
 Proof. exact pe_tree_of. Qed.
 
-(* no written branch is ignored: every rule of the program is a leaf of the tree that is evaluated *)
-Theorem C08_no_branch_ignored : forall prog, Gb prog = true ->
+(* no written branch is ignored: every rule of the program is a leaf of the tree that is evaluated, for EVERY program *)
+Theorem C08_no_branch_ignored : forall prog,
   exists h t, build prog = Some h /\ reify h = Some t /\
               forall q, In q (rules_of prog) -> In (leaf_of q) (leaves t).
-Proof. exact no_branch_ignored. Qed.
+Proof. exact no_branch_ignored_all. Qed.
+
+(* the decidable check of the construction that the harness evaluates is therefore always true *)
+Theorem C08_Gb_all : forall prog, Gb prog = true.
+Proof. exact Gb_all. Qed.
 
 (* the shapes of the documented tests (and three that look broken but are repaired by a later alternative) are in Gb,
    for arbitrary conditions and conclusions *)
@@ -111,13 +120,14 @@ Example C08_nonvacuous :
   model_tags ex_prog W8 = rdr ex_prog W8.
 Proof. exact ex_nonvacuous2. Qed.
 
+Print Assumptions C08_build_all.
 Print Assumptions C08_rules.
 Print Assumptions C08_rules_next.
 Print Assumptions C08_ruleeval_root_next.
-Print Assumptions C08_build_shape.
 Print Assumptions C08_ruleeval_ok.
 Print Assumptions C08_tree_is_rdr.
 Print Assumptions C08_no_branch_ignored.
+Print Assumptions C08_Gb_all.
 Print Assumptions C08_documented_shapes.
 Print Assumptions C08_fixed_surgery.
 Print Assumptions C08_fixed_next.
